@@ -45,7 +45,11 @@ def run_cases(args):
             parts = ["", "plain", "ünï©ødé ☃", "\"q\"", "\\", "\n", "tab\t", " ", "%20", "%", "100%", "a b", "http://x/ü?q=1&r=é#frag", "{}", "<tag>", "^`|", "null", "1.2.3", "\u0000"[:0] + "z"]
             return "".join(rng.choice(parts) for _ in range(rng.randrange(0, 4)))
         md = Metadata(description=text(), dataset_license=text(), dataset_version=text(), download_from=text(),
-                      custom_metadata={"root": rand_json(rng), "lst": [rand_json(rng)], text(): text()})
+                      custom_metadata={"root": rand_json(rng), "lst": [rand_json(rng)], text(): text(),
+                                       # user keys that happen to be spelled like fields of the description itself (a tool recording the
+                                       # versions / structure it was run with): data, never interpreted
+                                       **([{}, {"sedpack_version": "999.0.0", "nested": {"sedpack_version": "not-a-version", "dataset_structure": None}},
+                                           {"sedpack_version": "0.0.1", "splits": {"train": 1}, "metadata": {"description": 5}}][i % 3])})
         st = DatasetStructure(saved_data_description=attrs, compression=comp, examples_per_shard=rng.choice([1, 2, 256]), shard_file_type=fmt,
                               hash_checksum_algorithms=tuple(algos))
         root = base / f"d{i}"
